@@ -1006,3 +1006,22 @@ Module Examples.
     vm_compute. reflexivity.
   Qed.
 End Examples.
+
+(* the source's call pattern keeps the listener subscribed: every channel message is delivered to a
+   subscribed connection, none is lost, and the channel is still subscribed at the end - whatever
+   the messages decode to, however often _listen() is restarted or the connection is re-made *)
+Lemma rt_go_ok own a : forall items k, deliveries_ok true (rt_go own a k items) = true.
+Proof.
+  induction items as [|[it|] r IH]; intros k; [reflexivity| |].
+  - cbn [rt_go deliveries_ok andb]. destruct (restarts own a it); cbn [app deliveries_ok]; apply IH.
+  - cbn [rt_go deliveries_ok]. apply IH.
+Qed.
+Theorem redis_stays_subscribed own a items : deliveries_ok false (rt_model own a items) = true.
+Proof. unfold rt_model. cbn [deliveries_ok]. apply rt_go_ok. Qed.
+
+(* what the checker rejects: an unsubscribe that comes after the re-subscription of a restarted listener *)
+Example late_unsubscribe_rejected :
+  deliveries_ok false [BSub; BDeliver 0; BSub; BUnsub; BLost 1] = false /\
+  deliveries_ok false [BSub; BDeliver 0; BSub; BUnsub] = false /\
+  deliveries_ok false [BSub; BDeliver 0; BUnsub; BSub; BDeliver 1] = true.
+Proof. repeat split. Qed.
